@@ -80,15 +80,15 @@ func (c *Ctx) add(rule, key, pos string, st Status, detail string, trivial bool)
 	return o
 }
 
-func (c *Ctx) ok(rule, key, pos, detail string)   { c.add(rule, key, pos, Discharged, detail, false) }
-func (c *Ctx) okT(rule, key, pos, detail string)  { c.add(rule, key, pos, Discharged, detail, true) }
-func (c *Ctx) bad(rule, key, pos, detail string)  { c.add(rule, key, pos, Violated, detail, false) }
-func (c *Ctx) und(rule, key, pos, detail string)  { c.add(rule, key, pos, Undecided, detail, false) }
-func (c *Ctx) floor(rule string, n int)           { c.floors[c.Prop+"."+rule] = n }
-func (c *Ctx) note(format string, a ...any)       { c.notes = append(c.notes, fmt.Sprintf(format, a...)) }
-func (c *Ctx) assumes(s ...string)                { c.assume = append(c.assume, s...) }
-func (c *Ctx) trusted(s ...string)                { c.trust = append(c.trust, s...) }
-func (c *Ctx) looked(fn string)                   { c.funcs[fn] = true }
+func (c *Ctx) ok(rule, key, pos, detail string)  { c.add(rule, key, pos, Discharged, detail, false) }
+func (c *Ctx) okT(rule, key, pos, detail string) { c.add(rule, key, pos, Discharged, detail, true) }
+func (c *Ctx) bad(rule, key, pos, detail string) { c.add(rule, key, pos, Violated, detail, false) }
+func (c *Ctx) und(rule, key, pos, detail string) { c.add(rule, key, pos, Undecided, detail, false) }
+func (c *Ctx) floor(rule string, n int)          { c.floors[c.Prop+"."+rule] = n }
+func (c *Ctx) note(format string, a ...any)      { c.notes = append(c.notes, fmt.Sprintf(format, a...)) }
+func (c *Ctx) assumes(s ...string)               { c.assume = append(c.assume, s...) }
+func (c *Ctx) trusted(s ...string)               { c.trust = append(c.trust, s...) }
+func (c *Ctx) looked(fn string)                  { c.funcs[fn] = true }
 func (c *Ctx) check(cond bool, rule, key, pos, okDetail, badDetail string) {
 	if cond {
 		c.ok(rule, key, pos, okDetail)
